@@ -8,6 +8,7 @@ import (
 	"html"
 	"math"
 	"net/url"
+	"reflect"
 	"regexp"
 	"strings"
 	"time"
@@ -87,11 +88,18 @@ func AddStandardFilters(fd FilterDictionary) { //nolint: gocyclo
 
 	// number filters
 	fd.AddFilter("abs", math.Abs)
-	fd.AddFilter("ceil", func(a float64) int {
-		return int(math.Ceil(a))
+	// wholeNumber returns the whole number f as an int, or as it is when no int64 holds it
+	wholeNumber := func(f float64) any {
+		if f >= 1<<63 || f < -(1<<63) {
+			return f
+		}
+		return int(f)
+	}
+	fd.AddFilter("ceil", func(a float64) any {
+		return wholeNumber(math.Ceil(a))
 	})
-	fd.AddFilter("floor", func(a float64) int {
-		return int(math.Floor(a))
+	fd.AddFilter("floor", func(a float64) any {
+		return wholeNumber(math.Floor(a))
 	})
 	fd.AddFilter("modulo", func(a, b float64) (float64, error) {
 		if b == 0 {
@@ -120,6 +128,19 @@ func AddStandardFilters(fd FilterDictionary) { //nolint: gocyclo
 				return 0, errDivisionByZero
 			}
 			return a / b, nil
+		}
+		if a >= 1<<63 || a <= -(1<<63) {
+			// the receiver is at or beyond the edge of int64: an integer divisor gives the quotient of the two, truncated
+			if rb := reflect.ValueOf(b); rb.CanInt() || rb.CanUint() {
+				var d float64
+				if rb.CanInt() {
+					d = float64(rb.Int())
+				} else {
+					d = float64(rb.Uint())
+				}
+				q, err := divFloat(a, d)
+				return wholeNumber(math.Trunc(q)), err
+			}
 		}
 		switch q := b.(type) {
 		case int:
